@@ -1,10 +1,6 @@
-//go:build verifwip
-
 package apps
 
 import (
-	"fmt"
-
 	. "verif/harness/lib"
 )
 
@@ -12,27 +8,33 @@ const KeyPfmBounce = "C43-refund-of-forward-back-over-the-arrival-channel-mints-
 
 type pfmExec struct{ env *pfmEnv }
 
+func ints(v any) []int {
+	var out []int
+	switch r := v.(type) {
+	case []int:
+		return r
+	case []any:
+		for _, x := range r {
+			switch n := x.(type) {
+			case float64:
+				out = append(out, int(n))
+			case int:
+				out = append(out, n)
+			}
+		}
+	}
+	return out
+}
+
 func pfmScenarioOf(in M) pfmScenario {
 	sc := pfmScenario{origin: int(N(in, "origin")), start: int(N(in, "start")), amount: int64(N(in, "amount")),
-		badReceiver: Bool(in, "badReceiver"), badChannelAt: -1, retries: int(N(in, "retries"))}
-	if v, ok := in["badChannelAt"]; ok {
-		sc.badChannelAt = int(v.(int))
-	}
-	switch r := in["route"].(type) {
-	case []int:
-		sc.route = r
-	case []any:
-		for _, x := range r {
-			sc.route = append(sc.route, int(x.(float64)))
-		}
-	}
-	switch r := in["timeouts"].(type) {
-	case []int:
-		sc.timeouts = r
-	case []any:
-		for _, x := range r {
-			sc.timeouts = append(sc.timeouts, int(x.(float64)))
-		}
+		badReceiver: Bool(in, "badReceiver"), badChannelAt: -1, retries: int(N(in, "retries")),
+		route: ints(in["route"]), timeouts: ints(in["timeouts"])}
+	switch v := in["badChannelAt"].(type) {
+	case int:
+		sc.badChannelAt = v
+	case float64:
+		sc.badChannelAt = int(v)
 	}
 	return sc
 }
@@ -43,32 +45,169 @@ func (e *pfmExec) Do(in M) any {
 		return M{"ok": true}
 	case "route":
 		res := e.env.run(pfmScenarioOf(in))
-		return M{"r": res.class, "clean": len(res.diff) == 0, "overridesEmpty": len(res.overrides) == 0}
+		return M{"r": res.class, "clean": res.class == "refunded" && len(res.diff) == 0, "overridesEmpty": len(res.overrides) == 0}
 	}
 	return M{"bad": "unknown op"}
 }
 
-func pfmDebug() {
-	env := newPfmEnv()
-	for _, sc := range []pfmScenario{
-		{origin: 0, start: 0, route: []int{1, 2}, amount: 100, badChannelAt: -1},
-		{origin: 0, start: 0, route: []int{1, 2}, amount: 100, badReceiver: true, badChannelAt: -1},
-		{origin: 0, start: 0, route: []int{1, 0}, amount: 100, badChannelAt: -1},
-		{origin: 0, start: 0, route: []int{1, 0}, amount: 100, badReceiver: true, badChannelAt: -1},
-		{origin: 0, start: 0, route: []int{1, 2}, amount: 100, timeouts: []int{0, 1}, retries: 0, badChannelAt: -1},
-		{origin: 0, start: 0, route: []int{1, 2}, amount: 100, timeouts: []int{0, 1}, retries: 2, badChannelAt: -1},
-		{origin: 2, start: 0, route: []int{1, 2, 3}, amount: 100, badReceiver: true, badChannelAt: -1},
+func absInt(x int) int {
+	if x < 0 {
+		return -x
+	}
+	return x
+}
+
+// pfmRequest draws a scenario and derives, from ground truth the harness controls (the token's origin
+// and the route on the line), what ICS-20 does on every intermediate chain.
+func pfmRequest(r *Rng) M {
+	start := r.Intn(4)
+	origin := r.Intn(4)
+	n := 2 + r.Intn(2) // chains visited after start: 2 or 3 => 1 or 2 intermediate chains
+	var route []int
+	cur := start
+	for len(route) < n {
+		var opts []int
+		if cur > 0 {
+			opts = append(opts, cur-1)
+		}
+		if cur < 3 {
+			opts = append(opts, cur+1)
+		}
+		// mostly keep going in one direction; sometimes bounce
+		nx := Pick(r, opts)
+		if len(route) > 0 && r.Chance(0.75) {
+			prev := start
+			if len(route) > 1 {
+				prev = route[len(route)-2]
+			}
+			for _, o := range opts {
+				if o != prev {
+					nx = o
+				}
+			}
+		}
+		route = append(route, nx)
+		cur = nx
+	}
+	in := M{"f": "route", "origin": U(uint64(origin)), "start": U(uint64(start)), "route": route, "amount": U(uint64(10 + r.Intn(500))),
+		"badReceiver": false, "badChannelAt": -1, "retries": U(uint64(r.Intn(3))), "timeouts": []int{}}
+	failed := false
+	failPos := len(route) // index in route of the chain at which the failure shows (those before it forwarded)
+	switch r.Intn(6) {
+	case 0, 1: // error acknowledgement at the final chain
+		in["badReceiver"] = true
+		failed, failPos = true, len(route)-1
+	case 2: // an intermediate chain cannot forward (unknown channel): it answers with an error ack itself
+		k := 1 + r.Intn(len(route)-1) // forward instruction carried to route[k-1] names a bad channel for hop k
+		in["badChannelAt"] = k
+		failed, failPos = true, k-1
+	case 3: // a forwarded packet times out more often than PFM retries
+		h := 1 + r.Intn(len(route)-1)
+		to := make([]int, len(route))
+		to[h] = int(N(in, "retries")) + 1
+		in["timeouts"] = to
+		failed, failPos = true, h
+	case 4: // timeouts within the retry budget: still delivered
+		h := 1 + r.Intn(len(route)-1)
+		to := make([]int, len(route))
+		to[h] = r.Intn(int(N(in, "retries")) + 1)
+		in["timeouts"] = to
+	}
+	toward := func(x, y int) bool { return absInt(y-origin) < absInt(x-origin) }
+	mids := []M{}
+	for i := 0; i < len(route)-1 && i < failPos; i++ {
+		prev := start
+		if i > 0 {
+			prev = route[i-1]
+		}
+		c, next := route[i], route[i+1]
+		m := M{"recv": "mint", "fwd": "escrow"}
+		if toward(prev, c) {
+			m["recv"] = "unescrow"
+		}
+		if toward(c, next) {
+			m["fwd"] = "burn"
+		}
+		mids = append(mids, m)
+	}
+	in["mids"], in["failed"] = mids, failed
+	return in
+}
+
+func pfmGen(r *Rng, n int, do func(M) any) {
+	do(M{"f": "reset", "engine": "pfm"})
+	// always: the plain two-hop forward, its failure, the bounce and its failure
+	for _, in := range []M{
+		{"f": "route", "origin": "0", "start": "0", "route": []int{1, 2}, "amount": "100", "badReceiver": false, "badChannelAt": -1, "retries": "0", "timeouts": []int{},
+			"mids": []M{{"recv": "mint", "fwd": "escrow"}}, "failed": false},
+		{"f": "route", "origin": "0", "start": "0", "route": []int{1, 2}, "amount": "100", "badReceiver": true, "badChannelAt": -1, "retries": "0", "timeouts": []int{},
+			"mids": []M{{"recv": "mint", "fwd": "escrow"}}, "failed": true},
+		{"f": "route", "origin": "0", "start": "0", "route": []int{1, 0}, "amount": "100", "badReceiver": false, "badChannelAt": -1, "retries": "0", "timeouts": []int{},
+			"mids": []M{{"recv": "mint", "fwd": "burn"}}, "failed": false},
+		{"f": "route", "origin": "0", "start": "0", "route": []int{1, 0}, "amount": "100", "badReceiver": true, "badChannelAt": -1, "retries": "0", "timeouts": []int{},
+			"mids": []M{{"recv": "mint", "fwd": "burn"}}, "failed": true},
 	} {
-		res := env.run(sc)
-		fmt.Printf("%+v\n  => %s diff=%v overrides=%v\n  steps=%v\n", sc, res.class, res.diff, res.overrides, res.steps)
+		do(in)
+	}
+	for i := 0; i < n; i++ {
+		do(pfmRequest(r))
+	}
+}
+
+// pfmMonitor: the property itself on real chains.
+func pfmMonitor(r *Rng, n int, report func(Viol)) {
+	env := newPfmEnv()
+	run := func(in M) {
+		sc := pfmScenarioOf(in)
+		var res pfmResult
+		out := Safe(func() any { res = env.run(sc); return nil })
+		if m, ok := out.(M); ok && m["panic"] != nil {
+			report(Viol{Property: "C43-harness", What: "scenario could not run", Input: in, Observed: m})
+			return
+		}
+		bounce := false
+		for _, m := range in["mids"].([]M) {
+			if m["recv"] == "mint" && m["fwd"] == "burn" {
+				bounce = true
+			}
+		}
+		obs := M{"class": res.class, "diff": res.diff, "steps": res.steps}
+		if len(res.overrides) > 0 {
+			report(Viol{Property: "C43", What: "an intermediate override-receiver account kept funds", Input: in, Observed: M{"balances": res.overrides}})
+		}
+		switch res.class {
+		case "refunded":
+			if len(res.diff) > 0 {
+				key := ""
+				if bounce {
+					key = KeyPfmBounce
+				}
+				report(Viol{Property: "C43", Key: key, What: "the sender was refunded but balances / supply / total escrow on some chain did not return to their values before the forward", Input: in, Observed: obs, Requests: []M{{"f": "reset", "engine": "pfm"}, in}})
+			}
+		case "delivered":
+			if Bool(in, "failed") {
+				report(Viol{Property: "C43", What: "final receiver was paid although a hop failed", Input: in, Observed: obs})
+			}
+		case "stuck", "send-failed":
+			// tokens neither delivered nor refunded after everything relayable was relayed
+			if res.class == "stuck" {
+				report(Viol{Property: "C43", What: "neither delivered nor refunded: the sender lost the tokens and the receiver did not get them", Input: in, Observed: obs, Requests: []M{{"f": "reset", "engine": "pfm"}, in}})
+			}
+		}
+	}
+	run(M{"f": "route", "origin": "0", "start": "0", "route": []int{1, 0}, "amount": "100", "badReceiver": true, "badChannelAt": -1, "retries": "0", "timeouts": []int{},
+		"mids": []M{{"recv": "mint", "fwd": "burn"}}, "failed": true})
+	for i := 0; i < n; i++ {
+		run(pfmRequest(r))
 	}
 }
 
 func init() {
 	Register(Engine{
-		Name:  "pfm",
-		Props: []string{"C43"},
-		New:   func() Executor { return &pfmExec{env: newPfmEnv()} },
-		Gen:   func(r *Rng, n int, do func(M) any) { pfmDebug() },
+		Name:    "pfm",
+		Props:   []string{"C43"},
+		New:     func() Executor { return &pfmExec{env: newPfmEnv()} },
+		Gen:     pfmGen,
+		Monitor: pfmMonitor,
 	})
 }
